@@ -200,12 +200,14 @@ theorem step_masgG (h : Q ρ t u) (j i : Nat) :
     cases hG2 with
     | none => exact .same h _
     | @some hi hi' hh =>
-      simp only [hd.fl, hh.fl, hd.lvl, hh.lvl]
+      simp only [hd.fl, hh.fl, hd.lvl, hh.lvl, h.ownedG_any i, h.ownedG_any j]
       split
       · exact .same h _
       · split
         · exact .same h _
         · split
+          · exact .same h _
+          split
           · split
             · exact .same h _
             · rcases ensureSig_sim h i with ⟨e1, e2⟩ | ⟨t1, im, u1, im', ρ1, e1, e2, h1, him, hs1, hf1⟩
@@ -231,10 +233,12 @@ theorem step_delG (h : Q ρ t u) (i : Nat) : StepR ρ t u (Spec.stepSimple t (.d
   cases hG with
   | none => exact .same h _
   | @some hd hd' hh =>
-    simp only [hh.fl, hh.everFwd]
+    simp only [hh.fl, hh.everFwd, h.ownedG_any i]
     split
     · exact .same h _
-    · have h1 : Sim0 ρ t u (if hd.fl.isTrackable = true then Spec.invalidateTrackable t hd.trk else t)
+    · split
+      · exact .same h _
+      have h1 : Sim0 ρ t u (if hd.fl.isTrackable = true then Spec.invalidateTrackable t hd.trk else t)
           (if hd.fl.isTrackable = true then Spec.invalidateTrackable u hd'.trk else u) := by
         split
         · exact invalidateTrackable_sim h hh.trk
